@@ -103,6 +103,59 @@ def check_boundary_buffers(ctx, split_lines):
                         'seed': seed})
 
 
+def check_long_lines_and_counts(ctx, split_lines):
+    """(a) one line long enough to span whole internal blocks, with its
+    newline ending at / straddling / starting at every power of two and a few
+    round sizes, alone and starting exactly at such a boundary; (b) buffers
+    with exactly N newline occurrences for round N (powers of two, multiples
+    of 1000 / 10000) and N +- 1, terminated and not."""
+    obs = ctx.obs
+    i = 0
+    top = 20 if ctx.quick else 23
+    quick_nls = (NEWLINES[0], NEWLINES[1], NEWLINES[3], NEWLINES[8])
+    bounds = [1 << k for k in range(10, top + 1)] + [10 ** 5, 10 ** 6,
+                                                     3 << 16, 30000, 65535]
+    for nl in NEWLINES:
+        if ctx.quick and nl not in quick_nls:
+            continue
+        for B in bounds:
+            for j in range(0, len(nl) + 1):
+                i += 1
+                if not ctx.mine(i):
+                    continue
+                line = b'x' * (B - j) + nl
+                for data, tag in ((line + b'second' + nl, 'first'),
+                                  (b'p' * (B - len(nl)) + nl + line + b'z',
+                                   'at_boundary'),
+                                  (line + line + b'tail', 'twice')):
+                    obs.case((B, j, nl, tag, 'longline'), nontrivial=True)
+                    obs.count('long_line_boundary_cases')
+                    check(split_lines, data, nl, obs,
+                          case={'long_line': [B, j, tag], 'newline': nl})
+    counts = sorted(set([1 << k for k in range(8, 18)] +
+                        [1000 * m for m in (1, 5, 10, 20, 30, 40, 50, 60,
+                                            90, 100, 120)] + [65535, 99999]))
+    if ctx.quick:
+        counts = [c for c in counts if c <= 65536]
+    for nl in NEWLINES:
+        if ctx.quick and nl not in quick_nls[:3]:
+            continue
+        for N in counts:
+            for d in (-1, 0, 1):
+                i += 1
+                if not ctx.mine(i):
+                    continue
+                if ctx.quick and len(nl) > 2 and d:
+                    continue
+                for final in (True, False):
+                    data = (b'a' + nl) * (N + d) + (b'' if final else b'end')
+                    obs.case((N + d, nl, final, 'count'), nontrivial=True)
+                    obs.count('round_line_count_cases')
+                    check(split_lines, data, nl, obs,
+                          case={'line_count': N + d, 'final': final,
+                                'newline': nl})
+
+
 def run(ctx):
     obs = ctx.obs
     rng = ctx.rng
@@ -200,6 +253,7 @@ def run(ctx):
                 check(text.split_lines, data, nl, obs)
                 obs.count('huge_line_buffers_checked')
     check_boundary_buffers(ctx, text.split_lines)
+    check_long_lines_and_counts(ctx, text.split_lines)
     # tokens that appear as literals in the library's own source
     try:
         from mon.gen import dictionary
@@ -235,6 +289,19 @@ def run(ctx):
 def replay(case, obs):
     split_lines = contracts.original('split_lines')
     obs.case(None, nontrivial=False)
+    if 'long_line' in case:
+        B, j, tag = case['long_line']
+        nl = case['newline']
+        line = b'x' * (B - j) + nl
+        data = {'first': line + b'second' + nl,
+                'at_boundary': b'p' * (B - len(nl)) + nl + line + b'z',
+                'twice': line + line + b'tail'}[tag]
+        return check(split_lines, data, nl, obs, case=case)
+    if 'line_count' in case:
+        nl = case['newline']
+        data = (b'a' + nl) * case['line_count'] + (
+            b'' if case['final'] else b'end')
+        return check(split_lines, data, nl, obs, case=case)
     if 'boundary_buffer' in case:
         data = boundary_buffer(case['boundary_buffer'], case['newline'],
                                case['seed'])
